@@ -199,6 +199,8 @@ fn io_err(e: &lightmotif_io::error::Error) -> &'static str {
     }
 }
 
+/// Records up to and including the first error (a consumer stops at the first error: the readers
+/// may keep yielding the same error without advancing).
 fn load<A: Alphabet>(format: &str, data: Vec<u8>, is_dna: bool) -> String {
     let b = std::io::Cursor::new(data);
     let mut out: Vec<String> = Vec::new();
@@ -215,6 +217,9 @@ fn load<A: Alphabet>(format: &str, data: Vec<u8>, is_dna: bool) -> String {
                         format!("rec {} {} ~ ~ {}", name, desc, from_counts(&counts))
                     }
                 });
+                if out.last().map_or(false, |x| x.starts_with("err")) {
+                    break;
+                }
             }
         }
         "jaspar16" => {
@@ -228,6 +233,9 @@ fn load<A: Alphabet>(format: &str, data: Vec<u8>, is_dna: bool) -> String {
                         format!("rec {} {} ~ ~ {}", name, desc, from_counts(&counts))
                     }
                 });
+                if out.last().map_or(false, |x| x.starts_with("err")) {
+                    break;
+                }
             }
         }
         "transfac" => {
@@ -246,6 +254,9 @@ fn load<A: Alphabet>(format: &str, data: Vec<u8>, is_dna: bool) -> String {
                         ),
                     },
                 });
+                if out.last().map_or(false, |x| x.starts_with("err")) {
+                    break;
+                }
             }
         }
         "uniprobe" => {
@@ -258,6 +269,9 @@ fn load<A: Alphabet>(format: &str, data: Vec<u8>, is_dna: bool) -> String {
                         format!("rec {} ~ ~ ~ {}", name, from_freqs(&freqs))
                     }
                 });
+                if out.last().map_or(false, |x| x.starts_with("err")) {
+                    break;
+                }
             }
         }
         _ => return "err format".into(),
